@@ -369,11 +369,32 @@ func (c *Ctx) newGxHarness() *gxHarness {
 }
 
 type gxResult struct {
-	kind string // "accept", "reject", "panic", "opaque"
-	code string
-	msg  string
-	rpn  []string
-	why  string
+	kind  string // "accept", "reject", "panic", "opaque", "nonterm" (the whole step budget used up)
+	code  string
+	msg   string
+	rpn   []string
+	why   string
+	steps int // abstract steps of the parse call (token construction included)
+}
+
+// gxBudgetFactor: a parse that uses up a step budget of at least this many times what the longest returning
+// parse of its family needs does not return - "is rejected with a syntax error" / "is compiled" both say it
+// does. Below that factor the run stays undecided.
+const gxBudgetFactor = 50
+
+// gxOutOfBudget: the outcome of a run that ended because the machine's step budget was used up (and for no
+// other reason the machine gives up for).
+func gxOutOfBudget(o mOutcome) bool {
+	return o.kind == "opaque" && strings.Contains(o.why, "exceeds its step budget")
+}
+
+// gxNonTermination turns budget exhaustion into a verdict: a #language violation when the budget is far
+// above what the returning members of the family need, undecided otherwise.
+func gxNonTermination(show, why string, budget, maxReturning int) (bad, undec string) {
+	if maxReturning > 0 && budget >= gxBudgetFactor*maxReturning {
+		return fmt.Sprintf("%s does not return: %s after %d abstract steps, %d times the %d steps that the longest returning parse of this family takes - every token sequence is either compiled or rejected with a syntax error that carries an error code, so the parser must come back with one of the two", show, why, budget, budget/maxReturning, maxReturning), ""
+	}
+	return "", fmt.Sprintf("%s: %s (budget %d steps, the longest returning parse of the family takes %d)", show, why, budget, maxReturning)
 }
 
 func (h *gxHarness) method(recv mv, t types.Type, name string) (mv, mOutcome) {
@@ -402,21 +423,24 @@ func (h *gxHarness) parse(ls []lexeme) gxResult {
 	}
 	errv, out := h.m.Call(h.parseTokens, h.parser, mSlice{arr})
 	h.lastPath = h.m.recentPath()
-	switch out.kind {
-	case "panic":
+	used := h.m.steps
+	switch {
+	case out.kind == "panic":
 		return gxResult{kind: "panic", why: out.why}
-	case "opaque":
+	case gxOutOfBudget(out):
+		return gxResult{kind: "nonterm", why: out.why, steps: h.m.maxSteps}
+	case out.kind == "opaque":
 		return gxResult{kind: "opaque", why: out.why}
 	}
 	if _, isNil := errv.(mNilT); !isNil {
-		res := gxResult{kind: "reject", code: errorCode(errv), msg: errorField(errv, "Message")}
+		res := gxResult{kind: "reject", code: errorCode(errv), msg: errorField(errv, "Message"), steps: used}
 		return res
 	}
 	rv, out := h.m.Call(h.resultTokens, h.parser)
 	if out.kind != "ok" {
 		return gxResult{kind: "opaque", why: "ResultTokens: " + out.why}
 	}
-	res := gxResult{kind: "accept"}
+	res := gxResult{kind: "accept", steps: used}
 	var toks []mv
 	if sl, ok := rv.(mSlice); ok {
 		toks = sl.arr
@@ -643,6 +667,9 @@ func (c *Ctx) gxRun() []*gxFamVerdict {
 			posBad                  string
 			positioned              bool
 			sentence                bool
+			steps                   int    // of a parse that returned
+			nonterm, ntWhy          string // the input of a parse that used up the budget; where it was then
+			budget                  int
 		}
 		results := make([]res, len(f.items))
 		var wg sync.WaitGroup
@@ -659,9 +686,14 @@ func (c *Ctx) gxRun() []*gxFamVerdict {
 					got := h.parse(ls)
 					r := res{idx: i, sentence: acc}
 					show := "‹" + item + "›"
+					if got.kind == "accept" || got.kind == "reject" {
+						r.steps = got.steps
+					}
 					switch got.kind {
 					case "opaque":
 						r.undec = show + ": " + got.why
+					case "nonterm":
+						r.nonterm, r.ntWhy, r.budget = "ParseTokens on "+show, got.why, got.steps
 					case "panic":
 						r.langBad = fmt.Sprintf("parsing %s panics (%s) instead of returning a syntax error or a program", show, got.why)
 					case "accept":
@@ -695,6 +727,21 @@ func (c *Ctx) gxRun() []*gxFamVerdict {
 			}(w)
 		}
 		wg.Wait()
+		maxReturning := 0
+		for _, r := range results {
+			if r.steps > maxReturning {
+				maxReturning = r.steps
+			}
+		}
+		for i := range results {
+			if r := &results[i]; r.nonterm != "" {
+				bad, undec := gxNonTermination(r.nonterm, r.ntWhy, r.budget, maxReturning)
+				if r.langBad == "" {
+					r.langBad = bad
+				}
+				r.undec = undec
+			}
+		}
 		for _, r := range results {
 			fv.v.runs++
 			if r.sentence {
@@ -732,6 +779,8 @@ func (c *Ctx) gxRun() []*gxFamVerdict {
 		} else {
 			hx := c.newGxHarness()
 			var exprs []string
+			var twiceNonterm [][2]string // text, where the run was when the budget ran out
+			twiceMax := 0                // steps of the longest ParseString that returned
 			for _, f := range fams {
 				switch f.name {
 				case "malformed", "calls-index-grouping", "spacing-comments-case":
@@ -785,7 +834,15 @@ func (c *Ctx) gxRun() []*gxFamVerdict {
 				for rep := 0; rep < 2; rep++ {
 					m.steps = 0
 					r, o := callM(c, m, pt, "ParseString", parser, e)
+					if o.kind == "ok" && m.steps > twiceMax {
+						twiceMax = m.steps
+					}
 					switch {
+					case gxOutOfBudget(o):
+						answers = append(answers, "nonterm: "+o.why)
+						if rep == 0 {
+							twiceNonterm = append(twiceNonterm, [2]string{"ParseString(‹" + e + "›)", o.why})
+						}
 					case o.kind == "panic":
 						answers = append(answers, "panic: "+o.why)
 					case o.kind != "ok":
@@ -829,6 +886,8 @@ func (c *Ctx) gxRun() []*gxFamVerdict {
 					}
 				}
 				switch {
+				case strings.HasPrefix(answers[0], "nonterm"):
+					// judged below, against the longest returning parse of the family
 				case strings.HasPrefix(answers[0], "opaque"):
 					if fv.v.undec == "" {
 						fv.v.undec = show + ": " + answers[0]
@@ -845,6 +904,15 @@ func (c *Ctx) gxRun() []*gxFamVerdict {
 					if fv.v.langBad == "" {
 						fv.v.langBad = fmt.Sprintf("ParseString(%s) is %s the first time and %s when the same text is submitted again to the same parser", show, answers[0], answers[1])
 					}
+				}
+			}
+			for _, nt := range twiceNonterm {
+				bad, undec := gxNonTermination(nt[0], nt[1], m.maxSteps, twiceMax)
+				if bad != "" && fv.v.langBad == "" {
+					fv.v.langBad = bad
+				}
+				if undec != "" && fv.v.undec == "" {
+					fv.v.undec = undec
 				}
 			}
 		}
